@@ -1016,7 +1016,7 @@ def rule_R13(res, prog):
             t = bk.get("term")
             if t is None or "c" not in t or len(bk["succ"]) != 2 or t.get("k") != "if":
                 return False
-            return any(txt == "((ssl->flags & %d) ? 1 : 0)" % RS and not tr for (txt, tr, nd) in cu._cond_atoms(t["c"], k == 0))
+            return any(txt in ("((ssl->flags & %d) ? 1 : 0)" % RS, "(ssl->flags & %d)" % RS) and not tr for (txt, tr, nd) in cu._cond_atoms(t["c"], k == 0))
         esc = cu.escapes(fn, (fn.entry, None), passes, exempt_edge=no_read_keys, target_expr=lambda x, c=c: any(m is c for m in walk(x)))
         f_ = None
         if esc is not None:
